@@ -647,6 +647,29 @@ int main(int argc, char** argv) {
                       " = " + cmpReal(sz.v, sz.n, k.A, k.B, k.c), "ok");
             sink.count(std::string("cmp.variant.") + sz.v);
         }
+        // MathToolbox<E>::isSame / isfinite / isnan: one slot perturbed / NaN / inf
+        const long preds = thorough ? 30000 : 3000;
+        for (long it = 0; it < preds; ++it) {
+            Sizes sz = pickVariant(rng);
+            CmpCase k = makeCmp(rng, sz.n, false);
+            k.B = k.A;
+            const int slot = rng.range(0, sz.n), what = rng.range(0, 5);
+            if (what == 0) k.B[slot] += 0.5; else if (what == 1) k.B[slot] += 1e-11 * (1.0 + std::fabs(k.B[slot]));
+            else if (what == 2) k.A[slot] = std::nan(""); else if (what == 3) k.A[slot] = rng.coin() ? INFINITY : -INFINITY;
+            else if (what == 4) k.B[slot] *= 1.0 + 1e-8;
+            const double tol = rng.coin() ? 1e-9 : 1e-3;
+            std::string bits;
+            withVariant(sz.v, sz.n, [&](auto tag) {
+                using E = typename decltype(tag)::type;
+                const E a = fromVec<E>(sz.n, k.A), b = fromVec<E>(sz.n, k.B);
+                bits += Opm::MathToolbox<E>::isSame(a, b, tol) ? '1' : '0';
+                bits += (rng.coin() ? Opm::MathToolbox<E>::isfinite(a) : Opm::isfinite(a)) ? '1' : '0';
+                bits += (rng.coin() ? Opm::MathToolbox<E>::isnan(a) : Opm::isnan(a)) ? '1' : '0';
+            });
+            sink.emit("densead.pred " + std::to_string(sz.n) + " " + hexVec(k.A) + " " + hexVec(k.B) + " " + vh::hexF64(tol) + " = " + bits, "ok");
+            sink.count(std::string("pred.variant.") + sz.v);
+            sink.count("pred.bits." + bits);
+        }
         const long facts = thorough ? 30000 : 3000;
         for (long it = 0; it < facts; ++it) {
             Sizes sz = pickVariant(rng);
